@@ -86,8 +86,8 @@ func Mutate(t *rapid.T, doc []byte, other []byte, isCBE bool) ([]byte, string) {
 			}
 		case 8: // nest-repeat
 			k := rapid.SampledFrom([]int{2, 10, 100, 1000, 5000}).Draw(t, "mut.nest")
-			if !isCBE && k > 1000 {
-				k = 1000 // the ANTLR-generated CTE parser is quadratic in the nesting depth (C08 finding); keep C07 about termination
+			if !isCBE && k > 400 {
+				k = 400 // the ANTLR-generated CTE parser is quadratic in the nesting depth (C08 finding); keep C07 about termination
 			}
 			var op []byte
 			if isCBE {
